@@ -147,10 +147,11 @@ contract(TR + "query_ast_visitor.call_ResultTTree", props=["C03", "C05", "C09", 
                                   ("book", "field(gc_of(self), '_book_block') != None and live(field(gc_of(self), '_book_block'))")],
          modifies=CVC_MODIFIES + ["_tree_name", "_leaves", "filename", "treename"], may_raise=["Exception"], strict=False,
          local_sorts=dict(column_names=TList(Str), var_names=LEAVES, g_cv0=Int, g_book=Ref, g_bk0=Int, g_desc=Ref,
-                          g_fblock=RefOf(BLOCK), g_f0=Int, g_fill=Ref, g_src=IntIntMap, g_clr=IntIntMap),
+                          g_fblock=RefOf(BLOCK), g_f0=Int, g_fill=Ref, g_src=IntIntMap, g_clr=IntIntMap, g_row=RefOf(SCOPE)),
          ghost_init=["g_cv0 = 0", "g_book = None", "g_bk0 = 0", "g_desc = None", "g_fblock = None", "g_f0 = 0", "g_fill = None",
-                     "g_src = any_value(IntIntMap)", "g_clr = any_value(IntIntMap)"],
+                     "g_src = any_value(IntIntMap)", "g_clr = any_value(IntIntMap)", "g_row = None"],
          ghost={"after:var_names = [": ["g_cv0 = len(class_vars(self))"],
+                "after:scope_fill = self.as_sequence(find_fill_scope(source)).scope()": ["g_row = scope_fill"],
                 "after:crep.set_rep(": ["g_desc = rep_of(node)"],
                 "after:self._gc.add_statement(self.create_ttree_fill_obj(": [
                     "g_fblock = top_block(cursor(self))", "g_f0 = len(stmts(g_fblock)) - 1", "g_fill = stmts(g_fblock)[g_f0]"],
@@ -179,6 +180,8 @@ contract(TR + "query_ast_visitor.call_ResultTTree", props=["C03", "C05", "C09", 
               "all(implies(is_coll(col_values(final_seq_values)[k]), final_g_f0 < final_g_clr[k] and final_g_clr[k] < len(stmts(final_g_fblock)) and "
               "field(stmts(final_g_fblock)[final_g_clr[k]], '_collection', '" + CLEAR + "') == final_var_names[k][1]) "
               "for k in range(0, len(final_var_names)))"),
+             ("one_fill_per_row_where_the_row_sequence_is_iterated@C05,C01,C03",
+              "final_g_row != None and implies(not is_top(final_g_row) and len(stack_of(final_g_row)) >= 1, final_g_fblock == top_block(stack_of(final_g_row)))"),
              ("descriptor@C03", "final_g_desc != None and cls_is(final_g_desc, 'func_adl_xAOD.common.result_ttree.cpp_ttree_rep') and "
                                 "field(final_g_desc, 'treename') == final_tree_name and field(final_g_desc, 'filename') == 'ANALYSIS.root' and rep_of(node) == result"),
          ],
